@@ -670,23 +670,23 @@ const vfC07SyncFn = `function(doc, oldDoc, meta) {
 }`
 
 type vfC07World struct {
-	rt       kit.TB // *rapid.T in the generated test, *testing.T in the replays
-	env      *vfEnv
-	leaky    *base.LeakyDataStore
-	ops      []string
-	ack      map[uint64]string // sequence -> the acknowledged write that carries it
-	docUnus  map[uint64]string // sequence -> document whose stored unused_sequences listed it
-	docSeq   map[string]uint64 // current sequence of each document / principal, as acknowledged
-	docRev   map[string]string
-	docRevs  map[string][]string // earlier revisions (stale parents for conflicts)
-	roles    map[string]string   // name -> "live" / "deleted" / "purged"
-	users    map[string]bool
-	base     uint64
-	classes  map[string]int
-	nontriv  bool
-	armedKey string
-	armedFns []func() // other clients' writes, one per compare-and-swap window of the next write
-	inInter  bool
+	rt        kit.TB // *rapid.T in the generated test, *testing.T in the replays
+	env       *vfEnv
+	leaky     *base.LeakyDataStore
+	ops       []string
+	ack       map[uint64]string // sequence -> the acknowledged write that carries it
+	docUnus   map[uint64]string // sequence -> document whose stored unused_sequences listed it
+	docSeq    map[string]uint64 // current sequence of each document / principal, as acknowledged
+	docRev    map[string]string
+	docRevs   map[string][]string // earlier revisions (stale parents for conflicts)
+	roles     map[string]string   // name -> "live" / "deleted" / "purged"
+	users     map[string]bool
+	base      uint64
+	classes   map[string]int
+	nontriv   bool
+	armedKey  string
+	armedFns  []func() // other clients' writes, one per compare-and-swap window of the next write
+	inInter   bool
 	opCtx     context.Context // context of the operation under test (marked for the fault store); nil = env.Ctx
 	uncertain map[uint64]bool // numbers reserved by an operation that ended in a storage timeout (outcome unknown)
 	test      string
